@@ -240,6 +240,136 @@ impl<const HL: usize, const ID: usize> Hash for LHash<HL, ID> {
     }
 }
 
+// ------------------------------------------------------------------------------------------- ideal aead
+
+/// Ideal AEAD functionality: every `encrypt` is logged; `decrypt` accepts exactly the logged tuples
+/// (same key bytes, nonce, associated data and ciphertext) and nothing else, so "accepted" means "was produced by
+/// an encryption under this key and nonce" with no toy-tag collisions. The ciphertext body is the toy keystream
+/// XOR (so that REKEY depends on the key), the tag is the log index.
+pub const ILOG: usize = 8;
+pub const IMAX: usize = 40;
+pub const IAD: usize = 8;
+
+#[derive(Clone, Copy)]
+pub struct IEntry {
+    pub obj: usize,
+    pub key: [u8; 32],
+    pub nonce: u64,
+    pub ad: [u8; IAD],
+    pub adlen: usize,
+    pub pt: [u8; IMAX],
+    pub len: usize,
+}
+pub const IENTRY0: IEntry = IEntry { obj: 0, key: [0u8; 32], nonce: 0, ad: [0u8; IAD], adlen: 0, pt: [0u8; IMAX], len: 0 };
+pub static mut I_LOG: [IEntry; ILOG] = [IENTRY0; ILOG];
+pub static mut I_N: usize = 0;
+/// index of the log entry the last successful decrypt of object ID matched
+pub static mut I_MATCH: [usize; NC] = [usize::MAX; NC];
+
+#[inline(always)]
+fn iks(key: &[u8; 32], nonce: u64, i: usize) -> u8 {
+    let nb = nonce.to_le_bytes();
+    key[i % 32].rotate_left((i % 5) as u32) ^ nb[i % 8] ^ (i as u8).wrapping_mul(17)
+}
+
+pub struct ICipher<const ID: usize>;
+
+impl<const ID: usize> Cipher for ICipher<ID> {
+    fn name(&self) -> &'static str {
+        "IDEALAEAD"
+    }
+    fn set(&mut self, key: &[u8; 32]) {
+        unsafe {
+            CKEY[ID] = *key;
+            CSETS[ID] = CSETS[ID].wrapping_add(1);
+        }
+    }
+    fn encrypt(&self, nonce: u64, ad: &[u8], pt: &[u8], out: &mut [u8]) -> usize {
+        unsafe {
+            let idx = I_N;
+            assert!(idx < ILOG && pt.len() <= IMAX && ad.len() <= IAD, "harness bound: ideal AEAD log capacity");
+            let n = pt.len();
+            let mut e = IENTRY0;
+            e.obj = ID;
+            e.key = CKEY[ID];
+            e.nonce = nonce;
+            e.adlen = ad.len();
+            let mut i = 0;
+            while i < ad.len() {
+                e.ad[i] = ad[i];
+                i += 1;
+            }
+            e.len = n;
+            let mut i = 0;
+            while i < n {
+                e.pt[i] = pt[i];
+                out[i] = pt[i] ^ iks(&CKEY[ID], nonce, i);
+                i += 1;
+            }
+            let mut i = 0;
+            while i < 16 {
+                out[n + i] = (idx as u8) ^ 0xC0;
+                i += 1;
+            }
+            I_LOG[idx] = e;
+            I_N = idx + 1;
+            n + 16
+        }
+    }
+    fn decrypt(&self, nonce: u64, ad: &[u8], ct: &[u8], out: &mut [u8]) -> Result<usize, Error> {
+        unsafe {
+            if ct.len() < 16 {
+                return Err(Error::Decrypt);
+            }
+            let n = ct.len() - 16;
+            let t = ct[n];
+            let mut ok = true;
+            let mut i = 0;
+            while i < 16 {
+                ok &= ct[n + i] == t;
+                i += 1;
+            }
+            let idx = (t ^ 0xC0) as usize;
+            if !ok || idx >= I_N || idx >= ILOG || n > IMAX || ad.len() > IAD {
+                return Err(Error::Decrypt);
+            }
+            let e = &I_LOG[idx];
+            ok &= e.nonce == nonce && e.adlen == ad.len() && e.len == n;
+            let mut i = 0;
+            while i < 32 {
+                ok &= e.key[i] == CKEY[ID][i];
+                i += 1;
+            }
+            let mut i = 0;
+            while i < IAD {
+                if i < ad.len() {
+                    ok &= e.ad[i] == ad[i];
+                }
+                i += 1;
+            }
+            let mut i = 0;
+            while i < IMAX {
+                if i < n {
+                    ok &= (e.pt[i] ^ iks(&CKEY[ID], nonce, i)) == ct[i];
+                }
+                i += 1;
+            }
+            if !ok {
+                return Err(Error::Decrypt);
+            }
+            let mut i = 0;
+            while i < IMAX {
+                if i < n {
+                    out[i] = e.pt[i];
+                }
+                i += 1;
+            }
+            I_MATCH[ID] = idx;
+            Ok(n)
+        }
+    }
+}
+
 // -------------------------------------------------------------------------------------------------- dh
 
 pub static mut DPRIV: [[u8; DHMAX]; ND] = [[0u8; DHMAX]; ND];
@@ -364,5 +494,8 @@ pub fn reset_all() {
         O_SAW_MAX = [false; NC];
         O_CONTRACT_BROKEN = false;
         O_COPY = true;
+        I_LOG = [IENTRY0; ILOG];
+        I_N = 0;
+        I_MATCH = [usize::MAX; NC];
     }
 }
